@@ -160,9 +160,16 @@ def lean_check(prop, thorough=False):
     ppath = os.path.join(LEAN, 'Proofs', 'Props', prop + '.lean')
     with open(ppath) as f:
         psrc = _strip_comments(f.read())
-    names = re.findall(r'^\s*theorem\s+([\w.\']+)', psrc, flags=re.M)
-    ns = re.search(r'^\s*namespace\s+([\w.]+)', psrc, flags=re.M)
-    full = [(ns.group(1) + '.' + n) if ns else n for n in names]
+    def _thms(src):
+        names = re.findall(r'^\s*theorem\s+([\w.\']+)', src, flags=re.M)
+        ns = re.search(r'^\s*namespace\s+([\w.]+)', src, flags=re.M)
+        return [(ns.group(1) + '.' + n) if ns else n for n in names]
+    full = _thms(psrc)
+    # property-theorem files this one imports (shared layers such as Proofs/Props/XmlSyntax.lean) are audited with it
+    for dep in re.findall(r'^\s*import\s+Proofs\.Props\.(\w+)', psrc, flags=re.M):
+        if dep != prop:
+            with open(os.path.join(LEAN, 'Proofs', 'Props', dep + '.lean')) as f:
+                full += _thms(_strip_comments(f.read()))
     r.theorems = {n: None for n in full}
     if r.build_ok and full:
         audit = os.path.join(LEAN, '.lake', 'audit_%s_%d.lean' % (prop, os.getpid()))
